@@ -75,10 +75,10 @@ fn member(o: Ordering, set: &[Ordering]) -> bool {
 //@GEN binop_nondot_from_index
 
 // ---- U-BINOP-SCALAR ----------------------------------------------------------------------------------
-// One harness per operator (the operator is a constant so CBMC only follows that arm; a single harness with a
-// symbolic operator needed > 16 GB). Operands stay fully symbolic.
+// One harness per operator group; the operator is dispatched OUTSIDE the contract call to constants, so CBMC only
+// follows that operator's arm (a merged symbolic operator made it explore every arm: > 16 GB). Operands stay symbolic.
 macro_rules! binop_scalar_harness {
-    ($name:ident, $op:expr) => {
+    ($name:ident, $group:ident) => {
         #[kani::proof]
         #[kani::unwind(4)]
         #[kani::stub(alloc::fmt::format, crate::verif_common::fmt_stub)]
@@ -88,7 +88,7 @@ macro_rules! binop_scalar_harness {
         #[kani::stub(crate::functions::FunctionDef::call, probe_call)]
         #[kani::stub(crate::values::Value::stringify_internal, stringify_stub)]
         fn $name() {
-            binop_scalar_contract($op);
+            $group();
         }
     };
 }
